@@ -467,3 +467,144 @@ N('ritzpairs-sort-permutation-matrix', 'C15', [('LinAlg/RitzPairs.h', """       
         m_vectors = m_vectors * perm;
         m_residues = m_residues * perm;
         m_small_vectors = m_small_vectors * perm;""")], 'the correct permutation-matrix rewrite of the seeded C15 change')
+
+# ----------------------------------------------------------------------------- C08 (rotation consumers vs generator)
+Q = 'LinAlg/UpperHessenbergQR.h'
+M('qr-applyQY-vector-uses-transposed-rotation', 'C08', 'consumer-agrees-with-generator',
+  [(Q, '''            Y[i] = c * tmp + s * Y[i + 1];
+            Y[i + 1] = -s * tmp + c * Y[i + 1];''', '''            Y[i] = c * tmp - s * Y[i + 1];
+            Y[i + 1] = s * tmp + c * Y[i + 1];''')], 'Q y computed with G\' instead of G (vector overload only)')
+M('qr-applyYQ-descending', 'C08', 'consumer-agrees-with-generator',
+  [(Q, '''        for (Index i = 0; i < n1; i++)
+        {
+            const Scalar c = m_rot_cos.coeff(i);
+            const Scalar s = m_rot_sin.coeff(i);
+
+            Y_col_i = &Y.coeffRef(0, i);''', '''        for (Index i = n1 - 1; i >= 0; i--)
+        {
+            const Scalar c = m_rot_cos.coeff(i);
+            const Scalar s = m_rot_sin.coeff(i);
+
+            Y_col_i = &Y.coeffRef(0, i);''')], 'Y Q applies G_{n-1} first: a different product')
+M('qr-applyYQt-reads-sine-as-cosine', 'C08', 'consumer-agrees-with-generator',
+  [(Q, '''            const Scalar c = m_rot_cos.coeff(i);
+            const Scalar s = m_rot_sin.coeff(i);
+            // Y[, i:(i + 1)] = Y[, i:(i + 1)] * Gi'
+''', '''            const Scalar c = m_rot_sin.coeff(i);
+            const Scalar s = m_rot_cos.coeff(i);
+            // Y[, i:(i + 1)] = Y[, i:(i + 1)] * Gi'
+''')])
+M('qr-QtHQ-forgets-shift', 'C08', 'consumer-agrees-with-generator',
+  [(Q, '''        // Add the shift to the diagonal
+        dest.diagonal().array() += m_shift;''', '''        // Add the shift to the diagonal''')], 'returns R Q instead of R Q + s I')
+M('qr-applyQtY-matrix-acts-on-columns', 'C08', 'consumer-agrees-with-generator',
+  [(Q, '''            Yi.noalias() = Y.row(i);
+            Yi1.noalias() = Y.row(i + 1);
+            Y.row(i) = c * Yi - s * Yi1;
+            Y.row(i + 1) = s * Yi + c * Yi1;''', '''            Yi.noalias() = Y.row(i);
+            Yi1.noalias() = Y.row(i + 1);
+            Y.row(i) = c * Yi + s * Yi1;
+            Y.row(i + 1) = -s * Yi + c * Yi1;''')], 'Q\'Y with the pattern of Q Y')
+M('rotation-zero-x-sign', 'C08', 'rotation-annihilates',
+  [(Q, '''            c = Scalar(0);
+            s = -ysign;''', '''            c = Scalar(0);
+            s = ysign;''')], 'x == 0 special case: G\'[0; y] = [-|y|; 0], r negative / not annihilating')
+M('rotation-scaling-outputs-not-swapped', 'C08', 'rotation-annihilates',
+  [(Q, 'stable_scaling(yabs, xabs, r, s, c);', 'stable_scaling(yabs, xabs, r, c, s);')], '|x| <= |y| branch: c gets |y|/r')
+M('rotation-scaling-smaller-first', 'C08', 'rotation-annihilates',
+  [(Q, 'stable_scaling(xabs, yabs, r, c, s);', 'stable_scaling(yabs, xabs, r, s, c);')], 'helper precondition a >= b broken in the |x| > |y| branch')
+M('hessqr-compute-forgets-shift', 'C08', 'generator-is-a-rotation',
+  [(Q, '        m_mat_R.diagonal().array() -= m_shift;\n', '')])
+M('tridiag-compute-supd2-sign', 'C08', 'band-updates-follow-generator',
+  [(Q, 'm_R_supd2.coeffRef(i) = -(*s) * m_R_supd.coeff(i + 1);', 'm_R_supd2.coeffRef(i) = (*s) * m_R_supd.coeff(i + 1);')])
+M('tridiag-compute-swapped-outputs', 'C08', 'band-updates-follow-generator',
+  [(Q, 'this->compute_rotation(m_R_diag.coeff(i), m_T_subd.coeff(i), r, *c, *s);', 'this->compute_rotation(m_R_diag.coeff(i), m_T_subd.coeff(i), r, *s, *c);')])
+M('tridiag-compute-pointer-advanced-in-branch', 'C08', 'band-updates-follow-generator',
+  [(Q, '''                m_R_supd.coeffRef(i + 1) *= (*c);
+            }
+
+            c++;
+            s++;''', '''                m_R_supd.coeffRef(i + 1) *= (*c);
+                c++;
+                s++;
+            }
+''')], 'last rotation overwrites the previous one')
+M('tridiag-QtHQ-missing-factor-two', 'C08', 'two-sided-formulas-equal-PTP',
+  [(Q, 'const Scalar csy2 = Scalar(2) * c * s * y;', 'const Scalar csy2 = c * s * y;')])
+M('tridiag-QtHQ-bulge-sign', 'C08', 'two-sided-formulas-equal-PTP',
+  [(Q, "const Scalar o = -s * m_T_subd.coeff(i + 1);                     // o'", "const Scalar o = s * m_T_subd.coeff(i + 1);                     // o'")])
+M('tridiag-QtHQ-offdiag-formula', 'C08', 'two-sided-formulas-equal-PTP',
+  [(Q, "dest.coeffRef(i + 1, i) = cs * (x - z) + (c2 - s2) * y;  // y'", "dest.coeffRef(i + 1, i) = cs * (x + z) + (c2 - s2) * y;  // y'")])
+
+N('hessqr-compute-subdiagonal-computed', 'C08',
+  [(Q, '''            Rii[1] = 0;       // R[i + 1, i] => 0''', '''            Rii[1] = s * xi + c * xj;''')],
+  'R[i+1,i] computed by the rotation instead of set to zero: zero to rounding, within the stated tolerance')
+N('qr-formulas-rewritten', 'C08',
+  [(Q, '''            const Scalar tmp = Y[i];
+            Y[i] = c * tmp - s * Y[i + 1];
+            Y[i + 1] = s * tmp + c * Y[i + 1];''', '''            const Scalar tmp = Y[i];
+            Y[i] = -(s * Y[i + 1]) + tmp * c;
+            Y[i + 1] = c * Y[i + 1] + tmp * s;'''),
+   (Q, 'const Scalar csy2 = Scalar(2) * c * s * y;', 'const Scalar csy2 = Scalar(2) * cs * y;'),
+   (Q, "dest.coeffRef(i + 1, i) = cs * (x - z) + (c2 - s2) * y;  // y'", "dest.coeffRef(i + 1, i) = cs * x - cs * z + c2 * y - s2 * y;  // y'")],
+  'algebraically identical formulas')
+N('qr-sine-sign-convention-flipped-everywhere', 'C08',
+  [(Q, '            s = -ysign;', '            s = ysign;'),
+   (Q, 's = -ysign * s;', 's = ysign * s;', 'all'),
+   (Q, '- s * ', '@MS@', 'all'), (Q, '+ s * ', '- s * ', 'all'), (Q, '@MS@', '+ s * ', 'all'),
+   (Q, '= -s * ', '= @S@', 'all'), (Q, '= s * ', '= -s * ', 'all'), (Q, '= @S@', '= s * ', 'all'),
+   (Q, 's2 = -s * s;', 's2 = s * s;'),
+   (Q, '(*c) * Tii1 - (*s) * Ti1i1', '(*c) * Tii1 + (*s) * Ti1i1'),
+   (Q, '(*s) * Tii1 + (*c) * Ti1i1', '-(*s) * Tii1 + (*c) * Ti1i1'),
+   (Q, 'm_R_supd2.coeffRef(i) = -(*s) * m_R_supd.coeff(i + 1);', 'm_R_supd2.coeffRef(i) = (*s) * m_R_supd.coeff(i + 1);'),
+   (Q, "dest.coeffRef(i, i) = c2x - csy2 + s2z;", "dest.coeffRef(i, i) = c2x + csy2 + s2z;"),
+   (Q, "dest.coeffRef(i + 1, i) = cs * (x - z) + (c2 - s2) * y;", "dest.coeffRef(i + 1, i) = cs * (z - x) + (c2 - s2) * y;"),
+   (Q, "dest.coeffRef(i + 1, i + 1) = s2x + csy2 + c2z;", "dest.coeffRef(i + 1, i + 1) = s2x - csy2 + c2z;"),
+   (Q, "dest.coeffRef(i + 1, i) = ci1 * dest.coeff(i + 1, i) - si1 * o;", "dest.coeffRef(i + 1, i) = ci1 * dest.coeff(i + 1, i) + si1 * o;")],
+  'G_i = [c -s; s c] with s = y / r everywhere: the same Q, R and Q\'HQ; every rule is relative to the generator and stays discharged')
+
+D = 'LinAlg/DoubleShiftQR.h'
+M('ds-vector-reflector-missing-factor-two', 'C08', 'reflector-application-is-I-minus-2uut',
+  [(D, 'const Scalar dot2 = Scalar(2) * (x[0] * u0', 'const Scalar dot2 = Scalar(1) * (x[0] * u0')], 'I - uu\' is not orthogonal')
+M('ds-applyXP-third-column-uses-u1', 'C08', 'reflector-application-is-I-minus-2uut',
+  [(D, 'X2[i] -= tmp * u2;', 'X2[i] -= tmp * u1;')])
+M('ds-applyPX-two-row-case-uses-three', 'C08', 'reflector-application-is-I-minus-2uut',
+  [(D, '''        if (nr == 2 || nrow == 2)
+        {
+            for (Index i = 0; i < ncol; i++, xptr += stride)
+            {
+                const Scalar tmp = u0_2 * xptr[0] + u1_2 * xptr[1];
+                xptr[0] -= tmp * u0;
+                xptr[1] -= tmp * u1;''', '''        if (nr == 2 || nrow == 2)
+        {
+            for (Index i = 0; i < ncol; i++, xptr += stride)
+            {
+                const Scalar tmp = u0_2 * xptr[0] + u1_2 * xptr[1];
+                xptr[0] -= tmp * u0;
+                xptr[1] -= tmp * u0;''')])
+M('ds-first-column-m10-sign', 'C08', 'first-reflector-from-shifted-square',
+  [(D, 'const Scalar m10 = x10 * (x00 + x11 - m_shift_s);', 'const Scalar m10 = x10 * (x00 - x11 - m_shift_s);')])
+M('ds-first-column-m20-entry', 'C08', 'first-reflector-from-shifted-square',
+  [(D, 'const Scalar m20 = m_mat_H.coeff(il + 2, il + 1) * m_mat_H.coeff(il + 1, il);', 'const Scalar m20 = m_mat_H.coeff(il + 2, il + 1) * m_mat_H.coeff(il + 1, il + 1);')])
+M('ds-first-column-forgets-t', 'C08', 'first-reflector-from-shifted-square',
+  [(D, 'const Scalar m00 = x00 * (x00 - m_shift_s) + x01 * x10 + m_shift_t;', 'const Scalar m00 = x00 * (x00 - m_shift_s) + x01 * x10;')])
+M('ds-reflector-sign-cancels', 'C08', 'reflector-sign-and-scaling-order',
+  [(D, 'const Scalar rho = (x1 <= Scalar(0)) - (x1 > Scalar(0));', 'const Scalar rho = (x1 > Scalar(0)) - (x1 <= Scalar(0));')])
+M('ds-scaling-branch-ignores-third', 'C08', 'reflector-sign-and-scaling-order',
+  [(D, 'else if (x2m >= x1m && x2m >= x3m)', 'else if (x2m >= x1m)')])
+M('ds-apply-before-compute-in-chase', 'C08', 'reflector-defined-before-applied',
+  [(D, '''            compute_reflector(&m_mat_H.coeffRef(il + i, il + i - 1), il + i);
+            // Apply the reflector to X
+            apply_PX(m_mat_H.block(il + i, il + i - 1, 3, m_n - il - i + 1), m_n, il + i);''', '''            apply_PX(m_mat_H.block(il + i, il + i - 1, 3, m_n - il - i + 1), m_n, il + i);
+            compute_reflector(&m_mat_H.coeffRef(il + i, il + i - 1), il + i);''')])
+M('ds-last-reflector-index', 'C08', 'reflector-defined-before-applied',
+  [(D, 'apply_XP(m_mat_H.block(0, iu - 1, il + bsize, 2), m_n, iu - 1);', 'apply_XP(m_mat_H.block(0, iu - 1, il + bsize, 2), m_n, iu - 2);')])
+M('ds-applyQtY-reversed-index', 'C08', 'reflector-order-and-offsets',
+  [(D, 'apply_PX(y_ptr, i);', 'apply_PX(y_ptr, n1 - 1 - i);')])
+M('ds-applyYQ-last-block-index', 'C08', 'reflector-order-and-offsets',
+  [(D, 'apply_XP(Y.block(0, n2, nrow, 2), nrow, n2);', 'apply_XP(Y.block(0, n2, nrow, 2), nrow, n2 - 1);')])
+N('ds-formulas-rewritten', 'C08',
+  [(D, 'const Scalar m00 = x00 * (x00 - m_shift_s) + x01 * x10 + m_shift_t;', 'const Scalar m00 = x00 * x00 - m_shift_s * x00 + x10 * x01 + m_shift_t;'),
+   (D, 'X2[i] -= tmp * u2;', 'X2[i] -= u2 * tmp;'),
+   (D, 'const Scalar dot2 = Scalar(2) * (x[0] * u0', 'const Scalar dot2 = (Scalar(2) * x[0] * u0 + Scalar(2) * x[1] * u1 + (nr_is_2 ? 0 : Scalar(2) * (x[2] * u2))) + Scalar(0) * (x[0] * u0')],
+  'algebraically identical')
